@@ -20,7 +20,7 @@ func main() {
 		r.SetReplay(&mon.Replay{Property: id, Tier: "quick", Seed: 1, Family: fam, Index: i})
 		st := time.Now()
 		props.Registry[id](r)
-		if d := time.Since(st); d > 200*time.Millisecond {
+		if d := time.Since(st); d > 50*time.Millisecond {
 			fmt.Println("case", i, d)
 		}
 	}
